@@ -173,6 +173,11 @@ func runC17_1(c *core.Ctx) {
 		ast.Inspect(f.Decl.Body, func(n ast.Node) bool {
 			switch y := n.(type) {
 			case *ast.TypeAssertExpr:
+				if tv, ok := f.Info.Types[y]; ok {
+					if _, commaOK := tv.Type.(*types.Tuple); commaOK {
+						return true // v, ok := x.(T) does not panic
+					}
+				}
 				if y.Type != nil { // x.(T) outside a type switch header
 					bad = "an unchecked type assertion"
 				}
@@ -230,7 +235,7 @@ func runC17_2(c *core.Ctx) {
 			if as, ok := n.(*ast.AssignStmt); ok && len(as.Rhs) == 1 && len(as.Lhs) == 3 {
 				if call, ok := ast.Unparen(as.Rhs[0]).(*ast.CallExpr); ok {
 					cf := flow.CalleeFunc(f.Info, call)
-					if cf != nil && (cf.Name() == "Accept" || cf.Name() == "Recvfrom") && len(call.Args) >= 1 && flow.ObjOf(f.Info, call.Args[0]) == types.Object(fdParam) {
+					if cf != nil && (nameOf(cf) == "Accept" || nameOf(cf) == "Recvfrom") && len(call.Args) >= 1 && flow.ObjOf(f.Info, call.Args[0]) == types.Object(fdParam) {
 						saObj = flow.ObjOf(f.Info, as.Lhs[1])
 						sysPos = as.Pos()
 					}
